@@ -78,6 +78,24 @@ def acorr(x, t):
     return float(np.dot(x[:len(x) - t], x[t:])) if 0 <= t <= len(x) else 0.0
 
 
+# SUMRANGE(a, lo, hi) := a[lo] + ... + a[hi-1]: the sum of a slice, as one symbol in the base array and the bounds (shared by
+# the numpy model of sum / mean / matmul on a slice and by the contracts)
+SUMRANGE = z3.Function("SUMRANGE", z3.ArraySort(z3.IntSort(), z3.RealSort()), z3.IntSort(), z3.IntSort(), z3.RealSort())
+
+
+def sum_range(x, lo, hi):
+    """spec helper: x[lo] + ... + x[hi-1]"""
+    if isinstance(x, SSeq):
+        return wrap(SUMRANGE(x.arr, tz(lo), tz(hi)))
+    if isinstance(x, CList):
+        t = 0
+        for v in x.items[int(lo):int(hi)]:
+            t = t + v
+        return t
+    import numpy as np
+    return float(np.sum(np.asarray(x, dtype=float)[int(lo):int(hi)]))
+
+
 def sum_of(n, f):
     """spec helper: sum_{k < n} f(k), as SUM over a lambda-defined array (symbolic) or a Python sum (native)"""
     if isinstance(n, Sym) or z3.is_expr(n):
@@ -973,6 +991,26 @@ class Lib:
         return None
 
     def binop_ext(self, interp, op, a, b, node):
+        sm_a = isinstance(a, SOpaque) and a.tag == "structmat"
+        sm_b = isinstance(b, SOpaque) and b.tag == "structmat"
+        if sm_a or sm_b:
+            if sm_a and sm_b and op in ("+", "-"):
+                return SOpaque("structmat", (a.payload[0], arith(op, a.payload[1], b.payload[1]), arith(op, a.payload[2], b.payload[2])))
+            if op == "*" and sm_b and isinstance(a, SCALAR):
+                return SOpaque("structmat", (b.payload[0], arith("*", a, b.payload[1]), arith("*", a, b.payload[2])))
+            if op == "*" and sm_a and isinstance(b, SCALAR):
+                return SOpaque("structmat", (a.payload[0], arith("*", b, a.payload[1]), arith("*", b, a.payload[2])))
+            if op == "@" and sm_b and isinstance(a, (SSeq, CList)):
+                vec = self.to_sseq(interp, a, node) if isinstance(a, CList) else a
+                L, alpha, beta = b.payload
+                same = compare("==", vec.length, L)
+                if same is not True and (same is False or not interp.ctx.decide(tb(same), "ValueError", node)):
+                    raise PyRaise("ValueError", "matmul: dimension mismatch", node)
+                tot = self.seq_sum(interp, vec, node)
+                k = z3.Int(fresh("mm"))
+                body = treal(arith("+", arith("*", alpha, tot), arith("*", beta, wrap(_ssel(vec, 'arr', k)))))
+                return mk_seq(interp, L, k, body, "ndarray", "real")
+            interp.err(node, "operation %s on a structured matrix" % op)
         if op == "**" and isinstance(a, SOpaque) and a.tag == "rfft" and a.payload[2] == "abs" and b == 2:
             return SOpaque("rfft", (a.payload[0], a.payload[1], "abs2"))
         if op in ("|", "&", "-") and isinstance(a, SOpaque) and isinstance(b, SOpaque) and a.tag == "set" and b.tag == "set":
@@ -995,6 +1033,8 @@ class Lib:
         return NotImplemented
 
     def matmul(self, interp, a, b, node):
+        if isinstance(b, SOpaque) and b.tag == "structmat":
+            return self.binop_ext(interp, "@", a, b, node)
         if isinstance(a, (SSeq, CList)) and isinstance(b, (SSeq, CList)):
             return self.f_np__dot(interp, [a, b], {}, node)
         interp.err(node, "@ of %r and %r" % (a, b))
@@ -1475,6 +1515,10 @@ class Lib:
         interp.err(node, "sum(%r)" % (xs,))
 
     def seq_sum(self, interp, xs, node):
+        so = getattr(xs, "slice_of", None)
+        if so is not None and xs.ekind == "real":
+            base, blen, a0, a1 = so
+            return wrap(SUMRANGE(base, tz(a0), tz(a1)))
         arr = xs.arr
         if xs.ekind == "int":
             k = z3.Int(fresh("sm"))
@@ -1748,6 +1792,9 @@ class Lib:
     def _filled(self, interp, args, kwargs, node, val):
         n = args[0]
         if isinstance(n, tuple):
+            if len(n) == 2 and not all(isinstance(x, int) for x in n) and n[0] is n[1]:
+                # np.ones((L, L)) with symbolic L: a structured matrix alpha * ones + beta * identity
+                return SOpaque("structmat", (n[0], val, Fraction(0)))
             if len(n) == 1:
                 n = n[0]
             elif len(n) == 2 and all(isinstance(x, int) for x in n):
@@ -1764,6 +1811,12 @@ class Lib:
         if not interp.ctx.decide(tb(ok), "ValueError", node):
             raise PyRaise("ValueError", "negative dimensions are not allowed", node)
         return SSeq(n, z3.K(z3.IntSort(), z3.RealVal(val)), "ndarray", "real")
+
+    def f_np__identity(self, interp, args, kwargs, node):
+        n = args[0]
+        if isinstance(n, int):
+            return CList([CList([Fraction(1 if i == j else 0) for j in range(n)], "ndarray") for i in range(n)], "ndarray")
+        return SOpaque("structmat", (n, Fraction(0), Fraction(1)))
 
     def f_np__zeros_like(self, interp, args, kwargs, node):
         x = args[0]
@@ -2004,6 +2057,15 @@ class Lib:
         ctx.assume(And(compare("<=", 0, w), compare("<", w, x.length), ForAll(0, x.length, lambda i: compare("<=", x.get(i), x.get(w))),
                        ForAll(0, w, lambda i: compare("<", x.get(i), x.get(w)))))
         return w
+
+    def f_np__ndenumerate(self, interp, args, kwargs, node):
+        x = args[0]
+        items = self.try_iterate_concrete(interp, x, node)
+        if items is None:
+            interp.err(node, "np.ndenumerate of a symbolic-length array")
+        if any(isinstance(i, CList) for i in items):
+            interp.err(node, "np.ndenumerate of a multi-dimensional array")
+        return CList([((j,), v) for j, v in enumerate(items)], "list")
 
     def f_np__prod(self, interp, args, kwargs, node):
         items = self.iterate_concrete(interp, args[0], node)
